@@ -452,7 +452,8 @@ class Decimal(Element):
             raise ValueError(f"'{value}' doesn't match scale={self.scale}")
         if not value.is_finite():
             raise ValueError(f"'{value}' is not a finite number")
-        return str(value)
+        # OFX amounts have no exponent syntax; str() would write e.g. "1E+2"
+        return format(value, "f")
 
     @unconvert.register
     def _unconvert_none(self, value: None) -> None:
